@@ -361,9 +361,32 @@ def _entry(variables, fluxes, varnames):
     return {"nan": False, "t": v["t"], "vars": v["cols"], "flux": f["cols"], "tf": f["t"]}
 
 
-def _state(m):
+def _read_state(m):
     return {"pars": sorted([k, float(v)] for k, v in m.get_parameter_values().items()),
             "init": sorted([k, float(v)] for k, v in m.get_initial_conditions().items())}
+
+
+def _state(m):
+    """parameter values and initial values of a model as STORED in it: read once through the getters as they answer
+    right now (possibly from the memoised cache) and once after a value-preserving edit, which makes the model rebuild
+    its cache from the stored objects.  Code that writes the stored objects behind the cache's back (a shallow copy
+    sharing `_variables` / the `Variable` objects) shows up as a difference between the two."""
+    from mxlpy.types import InitialAssignment
+
+    cached = _read_state(m)
+    for k, p in m.get_raw_parameters(as_copy=False).items():
+        if not isinstance(p.value, InitialAssignment):
+            m.update_parameter(k, p.value)
+            break
+    else:
+        for k, v in m.get_raw_variables(as_copy=False).items():
+            if not isinstance(v.initial_value, InitialAssignment):
+                m.update_variable(k, v.initial_value)
+                break
+    fresh = _read_state(m)
+    if fresh != cached:
+        fresh["answered_from_stale_cache"] = cached
+    return fresh
 
 
 def _table(case):
